@@ -76,11 +76,40 @@ def registry_family(pid, tier, chk=None):
     return chk
 
 
+from . import drive_strtypes as DS
+
+
+def strtypes_family(chk, tier):
+    quick = tier == "quick"
+    corpus = DS.corpus_from_tlc(chk, 2 if quick else 3)
+    if quick:
+        more = DS.corpus_from_tlc.__wrapped__ if False else None
+        # a seeded sample of 3-token strings on top of all <=2-token ones
+        toks = sorted(DS.TOKENS)
+        extra = {"".join(DS.TOKENS[chk.rng.choice(toks)] for _ in range(3)) for _ in range(1200)}
+        corpus = sorted(set(corpus) | extra)
+    corpus = sorted(set(corpus) | set(DS.MC_STR.values()) | {"", "1_000", " 12 ", "0x10", "1e309", "-0", "٣.٥", "TrUe", "2020-02-30", "24:00"})
+    configs = DS.registries_from_tlc(chk, 2 if quick else 3)
+    chk.exhaustive_parts.append("MC_StrTypes: every registry reachable by <=%d register/disable operations; MC_StrGrammar: every string of <=%d tokens"
+                                % (2 if quick else 3, 2 if quick else 3))
+    if quick:
+        configs = configs[::4]
+    names = list(DS.CLS)
+    orders = [chk.rng.sample(names, chk.rng.randint(2, 6)) for _ in range(4 if quick else 25)]
+    traces, inputs, extra, I = DS.strtypes_traces(chk, corpus, configs, orders, detect_stride=3 if quick else 1)
+    chk.rules.append("%d corpus strings x %d registries (TLC-enumerated op sequences + %d permuted orders): detection, "
+                     "all subsets resolved, parse/render/parse of every accepted (string, type)" % (len(corpus), len(configs) + len(orders), len(orders)))
+    chk.validate("Trace_StrTypes", traces, inputs, shard=8, batch_extra=extra)
+
+
 def run(pid, tier, replay=None):
     chk = Check(pid, tier)
     if pid in ("C01", "C02", "C07", "C08", "C13"):
         infer_family(pid, tier, chk)
         registry_family(pid, tier, chk)
+        return chk.finish()
+    if pid == "C09":
+        strtypes_family(chk, tier)
         return chk.finish()
     if pid == "C05":
         closure_family(chk, tier)
